@@ -974,6 +974,37 @@ async fn run_task(w: Arc<World>, me: usize, is_async: bool, ends: Ends) -> i64 {
                 Some(Handle::Fut(h)) => h.is_finished() as i64,
                 _ => SKIP,
             }),
+            Op::JoinProbe(t) => Some(match handles[*t].take() {
+                Some(Handle::Fut(mut h)) => {
+                    // polling a JoinHandle is not a scheduling point: put one in front so that the probe is a
+                    // visible operation like any other
+                    let _ = wr.tick.load(Ordering::SeqCst);
+                    let mut cx = std::task::Context::from_waker(std::task::Waker::noop());
+                    match std::pin::Pin::new(&mut h).poll(&mut cx) {
+                        Poll::Ready(r) => {
+                            wr.sink.with_current(|l| {
+                                l.joined[*t] = true;
+                                if let Ok(v) = &r {
+                                    l.evts.push(Evt::JoinRet { joiner: me, target: *t, value: *v });
+                                }
+                            });
+                            if r.is_ok() {
+                                1
+                            } else {
+                                3
+                            }
+                        }
+                        Poll::Pending => {
+                            handles[*t] = Some(Handle::Fut(h));
+                            5
+                        }
+                    }
+                }
+                other => {
+                    handles[*t] = other;
+                    SKIP
+                }
+            }),
             Op::Acquire(s, n) => Some(if acq.is_some() {
                 // one acquisition per task at a time (keeps the reference model simple)
                 SKIP
